@@ -158,6 +158,24 @@ def extra(report, env):
         r = p.parse(text)
         if (r != {'result': nargs, 'error': None} or len(log) != 1 or len(log[0]) != nargs) and len(fails) < 5:
             fails.append({'formula': text, 'detail': 'a custom function is called once with the evaluated arguments whatever they are: got %r with calls %r' % (r, log)})
+    # function names are taken as written: a custom function registered in lower or mixed case is the one that is called, and a built-in
+    # spelled in another case is not that built-in
+    pc = e2e.new_parser()
+    calls = []
+    for nm in ('triple', 'netPrice', 'Vat_2024', 'sum', 'Sum'):
+        pc.set_function(nm, lambda *a, _n=nm: calls.append((_n, a)) or ('custom ' + _n))
+    for text, want, who in (('triple(2)', 'custom triple', 'triple'), ('netPrice(1,2)', 'custom netPrice', 'netPrice'), ('Vat_2024()', 'custom Vat_2024', 'Vat_2024'),
+                            ('sum(1,2)', 'custom sum', 'sum'), ('Sum(1,2)', 'custom Sum', 'Sum'), ('SUM(1,2)', 3, None), ('triple(1)&netPrice()', 'custom triplecustom netPrice', 'triple')):
+        del calls[:]
+        cases += 1
+        r = pc.parse(text)
+        if (r['result'] != want or (who is not None and (not calls or calls[0][0] != who)) or (who is None and calls)) and len(fails) < 5:
+            fails.append({'formula': text, 'detail': 'custom functions registered as triple / netPrice / Vat_2024 / sum / Sum: expected %r, got %r with calls %r' % (want, r, calls)})
+    for text in ('sum(1,2)', 'Sum(1,2)', 'pi()', 'Pi()', 'if(TRUE,1,2)', 'mAx(1,2)', 'TRIPLE(2)', 'NETPRICE(1)'):
+        cases += 1
+        r = (e2e.new_parser() if text[0].islower() or text[1].islower() else pc).parse(text)
+        if r['error'] != '#NAME?' and len(fails) < 5:
+            fails.append({'formula': text, 'detail': 'no function is registered under this spelling: expected #NAME?, got %r' % (r,)})
     p.set_function('IFERROR', lambda a, b: 'mine')
     cases += 1
     r = p.parse('IFERROR(1/0,2)')
